@@ -340,6 +340,18 @@ func registerStubs(ex *Exec) {
 		st.heap[ch.Obj] = &n
 		return nil
 	}
+	S["ctx.Err"] = func(ex *Exec, st *State, site ssa.Instruction, fn *ssa.Function, args []Value) Value {
+		// non-nil exactly when the context's channel (or a parent's) has been closed
+		op := args[0].(*Opaque)
+		closed := ex.get(st, op.Data["done"].(*ChanV).Obj).(*ChanC).Closed
+		if p, ok := op.Data["parent"].(*Opaque); ok {
+			closed = smt.Or(closed, ex.get(st, p.Data["done"].(*ChanV).Obj).(*ChanC).Closed)
+		}
+		if ex.ctxErr == nil {
+			ex.ctxErr = &IfaceV{T: nil, V: ex.newOpaque("error")}
+		}
+		return mergeV(closed, Value(ex.ctxErr), Value(Nil))
+	}
 	S["ctx.Done"] = func(ex *Exec, st *State, site ssa.Instruction, fn *ssa.Function, args []Value) Value {
 		op := args[0].(*Opaque)
 		if p, ok := op.Data["parent"].(*Opaque); ok {
